@@ -870,7 +870,7 @@ def grad_einsum(argnum, ans, operands_, kwargs):
                 new_operands = (g,) + rest_of_ops
 
             new_subscripts = new_input_subs + "->" + subs_wrt
-            return unbroadcast(anp.einsum(new_subscripts, *new_operands), result_meta)
+            return rebroadcast_einsum(unbroadcast(anp.einsum(new_subscripts, *new_operands), result_meta), result_meta)
         else:  # using (op0, sublist0, op1, sublist1, ..., sublistout) convention
             if len(operands) % 2 == 0:
                 raise NotImplementedError("Need sublistout argument")
@@ -880,7 +880,9 @@ def grad_einsum(argnum, ans, operands_, kwargs):
             )
             return match_complex(
                 operands_[argnum],
-                unbroadcast_einsum(anp.einsum(g, *rest_of_ops), result_meta, operands[argnum + 1]),
+                rebroadcast_einsum(
+                    unbroadcast_einsum(anp.einsum(g, *rest_of_ops), result_meta, operands[argnum + 1]), result_meta
+                ),
             )
 
     return vjp
@@ -931,6 +933,13 @@ def unbroadcast(x, target_meta, broadcast_idx=0):
 def unbroadcast_f(target, f):
     target_meta = anp.metadata(target)
     return lambda g: unbroadcast(f(g), target_meta)
+
+
+def rebroadcast_einsum(x, target_meta):
+    # a labelled axis that all the other operands carry with length one comes back with length one:
+    # repeat it to the length it has in this operand
+    target_shape = target_meta[0]
+    return x if anp.shape(x) == target_shape else anp.broadcast_to(x, target_shape)
 
 
 def unbroadcast_einsum(x, target_meta, subscript):
